@@ -1997,6 +1997,8 @@ def m_result(it, ctx, a, m, f):
         return o.fields[0]
     if meth == 'map': return Adt('Result', 'Ok', [it.call_closure(ctx, a[1], [o.fields[0]])]) if ok else o
     if meth == 'map_err': return o if ok else Adt('Result', 'Err', [it.call_closure(ctx, a[1], [o.fields[0]])])
+    if meth == 'or_else': return o if ok else it.call_closure(ctx, a[1], [o.fields[0]])
+    if meth == 'and_then': return it.call_closure(ctx, a[1], [o.fields[0]]) if ok else o
     if meth == 'unwrap_or_default':
         if ok: return o.fields[0]
     raise Unsupported('Result::' + meth)
